@@ -120,6 +120,69 @@ static void postselect_case(const Circuit &big, const Circuit &comp, const std::
             st.hit("postselect.refused");
         }
     }
+    // single-qubit post-selection entry points and the kickback measurement
+    {
+        uint32_t q = used[rng.below(used.size())];
+        uint32_t cq = to_compact.at(q);
+        int basis = (int)rng.below(3);
+        bool desired = rng.chance(0.5);
+        std::vector<GateTarget> t = {GateTarget::qubit(q)};
+        bool ok = true;
+        try {
+            if (basis == 0) sim.postselect_x(t, desired); else if (basis == 1) sim.postselect_y(t, desired); else sim.postselect_z(t, desired);
+        } catch (const std::invalid_argument &) {
+            ok = false;
+        }
+        const char *mg = basis == 0 ? "MX" : basis == 1 ? "MY" : "M";
+        if (ok) {
+            tail.safe_append_u(mg, {cq});   // the virtual measurement whose outcome was post-selected
+            rec.push_back(desired);
+            st.hit("postselect_xyz.accepted");
+        } else st.hit("postselect_xyz.refused");
+        // and a real measurement of the same qubit and basis: equals `desired` after an accepted post-selection, the other value after a refusal
+        Circuit one;
+        one.safe_append_u(mg, {q});
+        sim.safe_do_circuit(one);
+        bool m = sim.measurement_record.storage.back();
+        if (m != (ok ? desired : !desired)) out_x(std::string("postselect_") + "xyz"[basis] + (ok ? " accepted" : " refused") + " but the qubit then measures " + (m ? "1" : "0"));
+        tail.safe_append_u(mg, {cq}, {});
+        rec.push_back(m);
+        uint32_t q2 = used[rng.below(used.size())];
+        auto kb = sim.measure_kickback_z(GateTarget::qubit(q2));
+        tail.safe_append_u("M", {to_compact.at(q2)});
+        rec.push_back(kb.first);
+        if (kb.second.num_qubits != 0 && kb.second.ref().weight() == 0) out_x("measure_kickback_z returned an identity kickback for a random result");
+        st.hit(kb.second.num_qubits ? "kickback.random" : "kickback.deterministic");
+    }
+    // canonical stabilizers of the state: each has expectation +1 and measures 0
+    {
+        auto stabs = sim.canonical_stabilizers();
+        if (stabs.size() != sim.inv_state.num_qubits) out_x("canonical_stabilizers returned " + std::to_string(stabs.size()) + " generators for " + std::to_string(sim.inv_state.num_qubits) + " qubits");
+        size_t taken = 0;
+        for (const auto &sg : stabs) {
+            if (sim.peek_observable_expectation(sg) != +1) out_x("a canonical stabilizer does not have expectation +1: " + sg.str());
+            if (taken >= 3) continue;
+            std::vector<GateTarget> prod;
+            bool inside = true, first = true;
+            for (size_t q = 0; q < sg.num_qubits && inside; q++) {
+                int l = sg.xs[q] + 2 * sg.zs[q];
+                if (!l) continue;
+                auto it = to_compact.find((uint32_t)q);
+                if (it == to_compact.end()) { inside = false; break; }
+                if (!first) prod.push_back(GateTarget::combiner());
+                bool inv = first && (bool)sg.sign;
+                prod.push_back(l == 1 ? GateTarget::x(it->second, inv) : l == 3 ? GateTarget::y(it->second, inv) : GateTarget::z(it->second, inv));
+                first = false;
+            }
+            if (!inside || prod.empty()) continue;
+            bool m = sim.measure_pauli_string(sg.ref(), 0.0);
+            if (m) out_x("measuring a canonical stabilizer gave 1: " + sg.str());
+            tail.safe_append(CircuitInstruction(GateType::MPP, {}, prod, ""), true);
+            rec.push_back(m);
+            taken++;
+        }
+        st.hit("canonical_stabilizers.measured", taken);
+    }
     // final Z measurements of every used qubit
     std::vector<uint32_t> all_big, all_comp;
     for (auto &kv : to_compact) { all_big.push_back(kv.first); all_comp.push_back(kv.second); }
